@@ -605,7 +605,7 @@ func faithfulOp(op token.Token, a, b *Term) (*Term, bool) {
 		if a.Key() > b.Key() {
 			a, b = b, a
 		}
-		return &Term{Op: "f*", Args: []*Term{a, b}}, true
+		return &Term{Op: "f*", Args: []*Term{a, b}}, true // (constants are folded by the caller, not here)
 	case token.QUO:
 		return &Term{Op: "f/", Args: []*Term{a, b}}, true
 	}
@@ -623,6 +623,22 @@ func fAdd(a, b *Term) *Term {
 		a, b = b, a
 	}
 	return &Term{Op: "f+", Args: []*Term{a, b}}
+}
+
+// fMul: the node of one floating-point multiplication; x*1 = x and (for finite x) x*0 = 0 are exact.
+func fMul(a, b *Term) *Term {
+	switch {
+	case a.IsOne():
+		return b
+	case b.IsOne():
+		return a
+	case a.IsZero() || b.IsZero():
+		return K(0)
+	}
+	if a.Key() > b.Key() {
+		a, b = b, a
+	}
+	return &Term{Op: "f*", Args: []*Term{a, b}}
 }
 
 func fNeg(a *Term) *Term {
